@@ -476,6 +476,27 @@ pub fn c05(x: &str, toks: &[GTok], out: &str, cfg: &Cfg, ctx: &mut Ctx) {
     let attribute_after_helper_for = (3..tx.len()).any(|i| {
         tx[i].text(x) == "[" && tx[i - 1].kind == Kind::Identifier && tx[i - 2].text(x).eq_ignore_ascii_case("for") && tx[i - 3].text(x).eq_ignore_ascii_case("helper")
     });
+    // ... or between the ancestor list of a body-less class / interface and its `;`
+    let comment_in_type_header = comment_in_type_header
+        || (2..tx.len().saturating_sub(1)).any(|i| {
+            if !(commentish(&tx[i]) && tx[i].kind != Kind::Comment(CommentKind::InlineBlock) && tx[i - 1].text(x) == ")" && tx[i + 1].text(x) == ";") {
+                return false;
+            }
+            let mut depth = 0i32;
+            let mut j = i - 1;
+            loop {
+                match tx[j].text(x) {
+                    ")" => depth += 1,
+                    "(" => depth -= 1,
+                    _ => {}
+                }
+                if depth == 0 || j == 0 {
+                    break;
+                }
+                j -= 1;
+            }
+            j > 0 && matches!(tx[j - 1].text(x).to_ascii_lowercase().as_str(), "class" | "interface" | "dispinterface" | "object" | "record")
+        });
     let fail = |ctx: &mut Ctx, sig: &str, detail: String, anon_in_header: u8| {
         let sig = if sig == "declaration-placement" && comment_after_of_object {
             format!("{sig}:break-forcing-comment-after-of-object")
